@@ -676,7 +676,8 @@ def run(rep, tier):
         scaneval.clause(get_facts('K1'), rep, tier)      # white-space skipping with the cached bitmap, byte by byte (shared with C11)
     except AnalysisBroken as ex:
         rep.broken.append(str(ex))
-    rep.corroborate('E3.shift-range', 'E5.skip-extent')
+    # (the shift rule itself is not paired: the defect it exists for needs a white-space run that starts exactly two bytes
+    # before the end of the cached block - only its instance floor is)
     rep.corroborate_floor('C11: cached-bitmap', 'E5.skip-extent')
     for r_ in ('E6.number', 'E2.digit-run'):
         rep.corroborate(r_, 'E5.number-value')
